@@ -1,8 +1,6 @@
 package main
 
 import (
-	"go/ast"
-	"go/token"
 	"go/types"
 )
 
@@ -19,307 +17,7 @@ func checkC07(r *Run) {
 	ifBranchRuleSSA(r, "R3")
 }
 
-// valueVars returns the variables of f that hold the result of evaluating a
-// sub-expression of the node parameter, keyed by object, with the field path
-// that was evaluated ("Condition", "Right", "Left", "eiNode.Condition", ...).
-func valueVars(w *World, f *FuncInfo) map[types.Object]string {
-	info := f.Pkg.TypesInfo
-	out := map[types.Object]string{}
-	evalExpr := w.evalMethod("Expression")
-	inspectBody(f.Decl.Body, true, func(n ast.Node) bool {
-		as, ok := n.(*ast.AssignStmt)
-		if !ok || len(as.Rhs) != 1 || len(as.Lhs) < 1 {
-			return true
-		}
-		call, ok := as.Rhs[0].(*ast.CallExpr)
-		if !ok || evalExpr == nil || !w.isValueEvalCall(info, call) {
-			return true
-		}
-		if o := objOf(info, as.Lhs[0]); o != nil {
-			out[o] = short(w.Fset, call.Args[0])
-		}
-		return true
-	})
-	return out
-}
-
-func truthyUseRule(r *Run, rule string) {
-	w := r.W
-	truthy := w.truthyMethod()
-	if truthy == nil {
-		r.Lost(rule, "truthiness predicate")
-		return
-	}
-	var fns []*FuncInfo
-	for _, n := range []string{"PrefixExpression", "IfExpression", "InfixExpression"} {
-		m := w.evalMethods(n)
-		if len(m) == 0 {
-			r.Lost(rule, "evaluator for *ast."+n)
-		}
-		fns = append(fns, m...)
-	}
-	isInfix := func(f *FuncInfo) bool {
-		m := w.evalMethod("InfixExpression")
-		return m != nil && m.Obj == f.Obj
-	}
-	for _, f := range fns {
-		info := f.Pkg.TypesInfo
-		vals := valueVars(w, f)
-		// every condition expression
-		inspectBody(f.Decl.Body, true, func(n ast.Node) bool {
-			var conds []ast.Expr
-			var body []ast.Stmt
-			switch s := n.(type) {
-			case *ast.IfStmt:
-				conds = []ast.Expr{s.Cond}
-				body = s.Body.List
-			case *ast.ForStmt:
-				if s.Cond != nil {
-					conds = []ast.Expr{s.Cond}
-				}
-			case *ast.SwitchStmt:
-				if s.Tag != nil {
-					conds = append(conds, s.Tag)
-				}
-			case *ast.CaseClause:
-				if _, isTS := w.Parent(w.Parent(s)).(*ast.TypeSwitchStmt); !isTS {
-					conds = append(conds, s.List...)
-					body = s.Body
-				}
-			case *ast.TypeSwitchStmt:
-				// dispatch on the dynamic type of a value
-				var x ast.Expr
-				switch a := s.Assign.(type) {
-				case *ast.AssignStmt:
-					if ta, ok := a.Rhs[0].(*ast.TypeAssertExpr); ok {
-						x = ta.X
-					}
-				case *ast.ExprStmt:
-					if ta, ok := a.X.(*ast.TypeAssertExpr); ok {
-						x = ta.X
-					}
-				}
-				if o := objOf(info, x); o != nil {
-					if _, isVal := vals[o]; isVal {
-						if isInfix(f) {
-							r.Ok(rule, f.Name(), "type switch on "+short(w.Fset, x), w.Pos(s.Pos()), "licensed: selects the operator table by operand type")
-						} else {
-							r.Bad(rule, f.Name(), "type switch on "+short(w.Fset, x), w.Pos(s.Pos()), "a branch is chosen by the dynamic type of an evaluated value instead of the truthiness predicate")
-						}
-					}
-				}
-			}
-			for _, c := range conds {
-				checkCondUsesTruthy(r, rule, f, vals, truthy, c, body, isInfix(f))
-			}
-			return true
-		})
-		// results computed from a value without the predicate: `return !x`, `return v.(bool)`
-		for _, ret := range returnsIn(f.Decl.Body) {
-			if len(ret.Results) == 0 {
-				continue
-			}
-			e := unparen(ret.Results[0])
-			if u, ok := e.(*ast.UnaryExpr); ok && u.Op == token.NOT {
-				call, isCall := unparen(u.X).(*ast.CallExpr)
-				if isCall && calleeOf(info, call) == truthy.Obj && len(call.Args) == 1 {
-					if _, isVal := vals[objOf(info, call.Args[0])]; isVal {
-						r.Ok(rule, f.Name(), "return "+short(w.Fset, e), w.Pos(ret.Pos()), "negation of the predicate applied to the evaluated operand")
-						continue
-					}
-				}
-				r.Bad(rule, f.Name(), "return "+short(w.Fset, e), w.Pos(ret.Pos()), "logical negation must be '!' applied to the truthiness predicate of the evaluated operand")
-				continue
-			}
-			if call, ok := e.(*ast.CallExpr); ok && calleeOf(info, call) == truthy.Obj && len(call.Args) == 1 {
-				if _, isVal := vals[objOf(info, call.Args[0])]; isVal {
-					r.Ok(rule, f.Name(), "return "+short(w.Fset, e), w.Pos(ret.Pos()), "predicate applied to the evaluated operand")
-				}
-			}
-		}
-	}
-	bangArmRule(r, rule)
-}
-
-// bangArmRule: the prefix evaluator's "!" arm must exist and return the
-// negated truthiness predicate of the evaluated operand.
-func bangArmRule(r *Run, rule string) {
-	w := r.W
-	truthy := w.truthyMethod()
-	if truthy == nil {
-		r.Lost(rule, "truthiness predicate")
-		return
-	}
-	if pf := w.evalMethod("PrefixExpression"); pf != nil {
-		info := pf.Pkg.TypesInfo
-		found := false
-		inspectBody(pf.Decl.Body, true, func(n ast.Node) bool {
-			cc, ok := n.(*ast.CaseClause)
-			if !ok {
-				return true
-			}
-			for _, e := range cc.List {
-				if s, ok := constString(info, e); ok && s == "!" {
-					if len(cc.Body) == 1 {
-						if ret, ok := cc.Body[0].(*ast.ReturnStmt); ok && len(ret.Results) == 2 {
-							if u, ok := unparen(ret.Results[0]).(*ast.UnaryExpr); ok && u.Op == token.NOT {
-								if c, ok := unparen(u.X).(*ast.CallExpr); ok && calleeOf(info, c) == truthy.Obj {
-									found = true
-								}
-							}
-						}
-					}
-				}
-			}
-			return true
-		})
-		if !found {
-			r.Bad(rule, pf.Name(), "arm for \"!\"", w.Pos(pf.Decl.Pos()), "the '!' operator must return the negated truthiness predicate of its operand")
-		} else {
-			r.Ok(rule, pf.Name(), "arm for \"!\"", w.Pos(pf.Decl.Pos()), "return !truthy(operand)")
-		}
-	}
-}
-
-// checkCondUsesTruthy: every occurrence of a value variable inside cond must
-// be the argument of the predicate, or cond is the licensed nil dispatch.
-func checkCondUsesTruthy(r *Run, rule string, f *FuncInfo, vals map[types.Object]string, truthy *FuncInfo, cond ast.Expr, body []ast.Stmt, infix bool) {
-	w := r.W
-	info := f.Pkg.TypesInfo
-	var bad []ast.Expr
-	nGood := 0
-	var walk func(e ast.Node, underTruthy bool)
-	walk = func(e ast.Node, underTruthy bool) {
-		switch x := e.(type) {
-		case *ast.CallExpr:
-			isT := calleeOf(info, x) == truthy.Obj
-			walk(x.Fun, false)
-			for _, a := range x.Args {
-				if isT {
-					if id, ok := unparen(a).(*ast.Ident); ok {
-						if _, isVal := vals[objOf(info, id)]; isVal {
-							nGood++
-							continue
-						}
-					}
-				}
-				walk(a, false)
-			}
-			return
-		case *ast.Ident:
-			if _, isVal := vals[objOf(info, x)]; isVal {
-				bad = append(bad, x)
-			}
-			return
-		case *ast.FuncLit:
-			return
-		}
-		ast.Inspect(e, func(n ast.Node) bool {
-			if n == e || n == nil {
-				return true
-			}
-			walk(n, false)
-			return false
-		})
-	}
-	walk(cond, false)
-	con := "condition " + short(w.Fset, cond)
-	if len(bad) == 0 {
-		if nGood > 0 {
-			r.Ok(rule, f.Name(), con, w.Pos(cond.Pos()), "value reaches the branch through the predicate")
-		}
-		return
-	}
-	// licensed: nil dispatch of the infix evaluator: all disjuncts are `nil == v`, body returns a call
-	if infix {
-		all := true
-		for _, d := range disjuncts(cond) {
-			be, ok := unparen(d).(*ast.BinaryExpr)
-			if !ok || be.Op != token.EQL || !(isNilIdent(info, be.X) || isNilIdent(info, be.Y)) {
-				all = false
-			}
-		}
-		if all && len(body) == 1 {
-			if ret, ok := body[0].(*ast.ReturnStmt); ok && len(ret.Results) == 1 {
-				if _, isCall := ret.Results[0].(*ast.CallExpr); isCall {
-					r.Ok(rule, f.Name(), con, w.Pos(cond.Pos()), "licensed: selects the nil operator table, not a branch of the template")
-					return
-				}
-			}
-		}
-	}
-	r.Bad(rule, f.Name(), con, w.Pos(cond.Pos()),
-		"a branch decision uses the evaluated value '"+short(w.Fset, bad[0])+"' directly; truth must be decided by the single truthiness predicate so that it is the same everywhere")
-}
-
 // ---- R2 ---------------------------------------------------------------------
-
-func falsySetRule(r *Run, rule string) {
-	w := r.W
-	f := w.truthyMethod()
-	if f == nil {
-		r.Lost(rule, "truthiness predicate")
-		return
-	}
-	info := f.Pkg.TypesInfo
-	param := f.Obj.Type().(*types.Signature).Params().At(0)
-	have := map[string]bool{}
-	// classify every return
-	for _, ret := range returnsIn(f.Decl.Body) {
-		if len(ret.Results) != 1 {
-			continue
-		}
-		e := unparen(ret.Results[0])
-		con := "return " + short(w.Fset, e)
-		if tv := info.Types[e]; tv.Value != nil {
-			if tv.Value.ExactString() == "true" {
-				r.Ok(rule, f.Name(), con, w.Pos(ret.Pos()), "truthy")
-				continue
-			}
-			// constant false: must be guarded by a licensed condition
-			why := enclosingFalseGuard(w, info, f, ret, param)
-			if why != "" {
-				have[why] = true
-				r.Ok(rule, f.Name(), con+" when "+why, w.Pos(ret.Pos()), "licensed falsy case")
-			} else {
-				r.Bad(rule, f.Name(), con, w.Pos(ret.Pos()), "the predicate returns false under a condition that is not one of: value is nil; pointer kind and IsNil")
-			}
-			continue
-		}
-		// inside a type-switch arm
-		cc := enclosingCase(w, ret)
-		if cc == nil {
-			r.Bad(rule, f.Name(), con, w.Pos(ret.Pos()), "unrecognised result of the truthiness predicate")
-			continue
-		}
-		bound := info.Implicits[cc]
-		if len(cc.List) != 1 {
-			r.Bad(rule, f.Name(), con+" in multi-type arm", w.Pos(ret.Pos()),
-				"in an arm with several types the bound variable is an interface: comparing it with \"\" or returning it does not test the value of each type")
-			continue
-		}
-		at := info.Types[cc.List[0]].Type
-		switch {
-		case isBasicKind(at, types.Bool) && objOf(info, e) == bound:
-			have["bool"] = true
-			r.Ok(rule, f.Name(), "case bool: "+con, w.Pos(ret.Pos()), "false is falsy")
-		case isBasicKind(at, types.String) && !isNamed(at) && isNeqEmpty(info, e, bound):
-			have["string"] = true
-			r.Ok(rule, f.Name(), "case string: "+con, w.Pos(ret.Pos()), "\"\" is falsy")
-		case namedIs(at, "html/template", "HTML") && isNeqEmpty(info, e, bound):
-			have["html"] = true
-			r.Ok(rule, f.Name(), "case template.HTML: "+con, w.Pos(ret.Pos()), "empty HTML is falsy")
-		default:
-			r.Bad(rule, f.Name(), "case "+typeStr(at)+": "+con, w.Pos(ret.Pos()),
-				"this arm can return false for a kind of value the property declares truthy (only nil, false, \"\", empty HTML and nil pointers are falsy)")
-		}
-	}
-	for _, need := range []string{"nil", "bool", "string", "html", "nilptr"} {
-		if !have[need] {
-			r.Bad(rule, f.Name(), "falsy case missing: "+need, w.Pos(f.Decl.Pos()), "the predicate no longer treats this value as falsy")
-		}
-	}
-}
 
 func isBasicKind(t types.Type, k types.BasicKind) bool {
 	b, ok := t.Underlying().(*types.Basic)
@@ -331,367 +29,4 @@ func isNamed(t types.Type) bool {
 	return ok
 }
 
-func isNeqEmpty(info *types.Info, e ast.Expr, bound types.Object) bool {
-	be, ok := unparen(e).(*ast.BinaryExpr)
-	if !ok || be.Op != token.NEQ {
-		return false
-	}
-	x, y := be.X, be.Y
-	if s, ok := constString(info, x); ok && s == "" {
-		x, y = y, x
-	}
-	s, ok := constString(info, y)
-	return ok && s == "" && objOf(info, x) == bound
-}
-
-func enclosingCase(w *World, n ast.Node) *ast.CaseClause {
-	for p := w.Parent(n); p != nil; p = w.Parent(p) {
-		if cc, ok := p.(*ast.CaseClause); ok {
-			if _, isTS := w.Parent(w.Parent(cc)).(*ast.TypeSwitchStmt); isTS {
-				return cc
-			}
-		}
-		if _, ok := p.(*ast.FuncDecl); ok {
-			return nil
-		}
-	}
-	return nil
-}
-
-// enclosingFalseGuard classifies the if-condition directly guarding a
-// `return false`: "nil" for `param == nil`, "nilptr" for
-// `reflect.ValueOf(param).Kind() == reflect.Ptr && reflect.ValueOf(param).IsNil()`.
-func enclosingFalseGuard(w *World, info *types.Info, f *FuncInfo, ret *ast.ReturnStmt, param *types.Var) string {
-	blk, ok := w.Parent(ret).(*ast.BlockStmt)
-	if !ok {
-		return ""
-	}
-	ifs, ok := w.Parent(blk).(*ast.IfStmt)
-	if !ok || ifs.Body != blk {
-		return ""
-	}
-	cj := conjuncts(ifs.Cond)
-	if len(cj) == 1 {
-		if be, ok := unparen(cj[0]).(*ast.BinaryExpr); ok && be.Op == token.EQL {
-			if (objOf(info, be.X) == param && isNilIdent(info, be.Y)) || (objOf(info, be.Y) == param && isNilIdent(info, be.X)) {
-				return "nil"
-			}
-		}
-		return ""
-	}
-	if len(cj) == 2 {
-		kindPtr, isNil := false, false
-		for _, c := range cj {
-			switch x := unparen(c).(type) {
-			case *ast.BinaryExpr:
-				if x.Op == token.EQL {
-					if call, ok := unparen(x.X).(*ast.CallExpr); ok && methodIs(calleeOf(info, call), "reflect", "Value", "Kind") && reflectValueOfParam(info, call, param) {
-						if v, ok := constInt(info, x.Y); ok && v == 22 { // reflect.Ptr
-							kindPtr = true
-						}
-					}
-				}
-			case *ast.CallExpr:
-				if methodIs(calleeOf(info, x), "reflect", "Value", "IsNil") && reflectValueOfParam(info, x, param) {
-					isNil = true
-				}
-			}
-		}
-		if kindPtr && isNil {
-			return "nilptr"
-		}
-	}
-	return ""
-}
-
-// reflectValueOfParam: the receiver of the method call is reflect.ValueOf(param)
-// or a local assigned once from it.
-func reflectValueOfParam(info *types.Info, call *ast.CallExpr, param *types.Var) bool {
-	sel, ok := unparen(call.Fun).(*ast.SelectorExpr)
-	if !ok {
-		return false
-	}
-	if c, ok := unparen(sel.X).(*ast.CallExpr); ok && funcIs(calleeOf(info, c), "reflect", "ValueOf") && len(c.Args) == 1 {
-		return objOf(info, c.Args[0]) == param
-	}
-	return false
-}
-
 // ---- R3 ---------------------------------------------------------------------
-
-func branchSelectionRule(r *Run, rule string) {
-	w := r.W
-	truthy := w.truthyMethod()
-	ifs := w.evalMethods("IfExpression")
-	blockEval := w.evalMethod("BlockStatement")
-	if truthy == nil || len(ifs) == 0 || blockEval == nil {
-		r.Lost(rule, "if evaluator / block evaluator / predicate")
-		return
-	}
-	// classify the two functions: the one evaluating node.Condition is the head
-	var head, chain *FuncInfo
-	for _, f := range ifs {
-		vals := valueVars(w, f)
-		for _, path := range vals {
-			if len(path) >= 10 && path[len(path)-10:] == ".Condition" {
-				if _, isParam := paramField(f, path); isParam {
-					head = f
-				}
-			}
-		}
-		info := f.Pkg.TypesInfo
-		inspectBody(f.Decl.Body, true, func(n ast.Node) bool {
-			if rs, ok := n.(*ast.RangeStmt); ok {
-				if _, fld := fieldOf(info, rs.X); fld != nil && fld.Name() == "ElseIf" {
-					chain = f
-				}
-			}
-			return true
-		})
-	}
-	if head == nil || chain == nil {
-		r.Lost(rule, "head and else-chain evaluators of the if expression")
-		return
-	}
-	conditionToleranceRule(r, rule, []*FuncInfo{head, chain})
-	// head: `if truthy(con) { return evalBlock(node.Block) }` then `return chain(node)`
-	{
-		f := head
-		info := f.Pkg.TypesInfo
-		node := f.Obj.Type().(*types.Signature).Params().At(0)
-		vals := valueVars(w, f)
-		var condVar types.Object
-		for o, p := range vals {
-			if p == node.Name()+".Condition" {
-				condVar = o
-			}
-		}
-		okMain := false
-		for _, st := range f.Decl.Body.List {
-			is, ok := st.(*ast.IfStmt)
-			if !ok {
-				continue
-			}
-			c, ok := unparen(is.Cond).(*ast.CallExpr)
-			if !ok || calleeOf(info, c) != truthy.Obj || len(c.Args) != 1 || objOf(info, c.Args[0]) != condVar || condVar == nil {
-				continue
-			}
-			if len(is.Body.List) == 1 {
-				if ret, ok := is.Body.List[0].(*ast.ReturnStmt); ok && len(ret.Results) == 1 {
-					if bc, ok := ret.Results[0].(*ast.CallExpr); ok && calleeOf(info, bc) == blockEval.Obj && len(bc.Args) == 1 {
-						if x, fld := fieldOf(info, bc.Args[0]); fld != nil && fld.Name() == "Block" && objOf(info, x) == node {
-							okMain = true
-						}
-					}
-				}
-			}
-		}
-		if okMain {
-			r.Ok(rule, f.Name(), "main block on the truthy edge", w.Pos(f.Decl.Pos()), "if truthy(cond) { return evalBlock(node.Block) }")
-		} else {
-			r.Bad(rule, f.Name(), "main block on the truthy edge", w.Pos(f.Decl.Pos()), "the if evaluator must evaluate node.Block exactly under 'if truthy(condition)' and return its result at once")
-		}
-		// every other evaluation of a block or of the chain must come after that if (i.e. on its false edge)
-		nBlock := 0
-		for _, c := range callsIn(f.Decl.Body, true) {
-			if calleeOf(info, c) == blockEval.Obj {
-				nBlock++
-			}
-		}
-		if nBlock != 1 {
-			r.Bad(rule, f.Name(), "block evaluations in the head", w.Pos(f.Decl.Pos()), "the head must evaluate exactly one block (the main block)")
-		}
-		last, ok := f.Decl.Body.List[len(f.Decl.Body.List)-1].(*ast.ReturnStmt)
-		if ok && len(last.Results) == 1 && isCallTo(info, last.Results[0], chain.Obj) {
-			r.Ok(rule, f.Name(), "else chain on the falsy edge", w.Pos(last.Pos()), "return evalElse(node) after the truthy test")
-		} else if head != chain {
-			r.Bad(rule, f.Name(), "else chain on the falsy edge", w.Pos(f.Decl.Pos()), "the else chain must be evaluated only after the main condition was falsy")
-		}
-	}
-	// chain
-	{
-		f := chain
-		info := f.Pkg.TypesInfo
-		node := f.Obj.Type().(*types.Signature).Params().At(0)
-		var loop *ast.RangeStmt
-		loopIdx := -1
-		for i, st := range f.Decl.Body.List {
-			if rs, ok := st.(*ast.RangeStmt); ok {
-				if x, fld := fieldOf(info, rs.X); fld != nil && fld.Name() == "ElseIf" && objOf(info, x) == node {
-					loop, loopIdx = rs, i
-				}
-			}
-		}
-		if loop == nil {
-			r.Lost(rule, "range over node.ElseIf as a top-level statement of the else-chain evaluator")
-			return
-		}
-		elem := objOf(info, loop.Value)
-		if elem == nil {
-			r.Bad(rule, f.Name(), "else-if loop", w.Pos(loop.Pos()), "the else-if loop must bind the element")
-			return
-		}
-		// condition evaluated from elem.Condition
-		var condVar types.Object
-		var condPos token.Pos
-		nCond := 0
-		for _, st := range loop.Body.List {
-			as, ok := st.(*ast.AssignStmt)
-			if !ok || len(as.Rhs) != 1 {
-				continue
-			}
-			c, ok := as.Rhs[0].(*ast.CallExpr)
-			if !ok || len(c.Args) != 1 {
-				continue
-			}
-			if x, fld := fieldOf(info, c.Args[0]); fld != nil && fld.Name() == "Condition" {
-				nCond++
-				if objOf(info, x) == elem {
-					condVar = objOf(info, as.Lhs[0])
-					condPos = as.Pos()
-				}
-			}
-		}
-		okPair := false
-		for _, st := range loop.Body.List {
-			is, ok := st.(*ast.IfStmt)
-			if !ok || st.Pos() < condPos {
-				continue
-			}
-			c, ok := unparen(is.Cond).(*ast.CallExpr)
-			if !ok || calleeOf(info, c) != truthy.Obj || len(c.Args) != 1 || condVar == nil || objOf(info, c.Args[0]) != condVar {
-				continue
-			}
-			if len(is.Body.List) == 1 {
-				if ret, ok := is.Body.List[0].(*ast.ReturnStmt); ok && len(ret.Results) == 1 {
-					if bc, ok := ret.Results[0].(*ast.CallExpr); ok && calleeOf(info, bc) == blockEval.Obj && len(bc.Args) == 1 {
-						if x, fld := fieldOf(info, bc.Args[0]); fld != nil && fld.Name() == "Block" && objOf(info, x) == elem {
-							okPair = true
-						}
-					}
-				}
-			}
-		}
-		if okPair && nCond == 1 {
-			r.Ok(rule, f.Name(), "else-if: condition and block of the same element, first truthy returns", w.Pos(loop.Pos()), "if truthy(eval(e.Condition)) { return evalBlock(e.Block) }")
-		} else {
-			r.Bad(rule, f.Name(), "else-if pairing", w.Pos(loop.Pos()),
-				"each iteration must evaluate the condition of the range element, and on a truthy value immediately return the block of the SAME element (no later condition is then evaluated)")
-		}
-		// blocks evaluated inside the loop: only the paired one
-		nIn := 0
-		for _, c := range callsIn(loop.Body, true) {
-			if calleeOf(info, c) == blockEval.Obj {
-				nIn++
-			}
-		}
-		if nIn != 1 {
-			r.Bad(rule, f.Name(), "block evaluations inside the else-if loop", w.Pos(loop.Pos()), "exactly one block evaluation per iteration (the element's own block)")
-		}
-		// no break/continue tricks that skip the return
-		inspectBody(loop.Body, true, func(n ast.Node) bool {
-			if b, ok := n.(*ast.BranchStmt); ok && (b.Tok == token.BREAK || b.Tok == token.GOTO) {
-				r.Bad(rule, f.Name(), "else-if loop leaves with "+b.Tok.String(), w.Pos(b.Pos()), "the loop must be left only by returning the chosen block's result (or an error)")
-			}
-			return true
-		})
-		// else block strictly after the loop
-		for i, st := range f.Decl.Body.List {
-			for _, c := range callsIn(st, true) {
-				if calleeOf(info, c) != blockEval.Obj || len(c.Args) != 1 {
-					continue
-				}
-				if _, fld := fieldOf(info, c.Args[0]); fld != nil && fld.Name() == "ElseBlock" {
-					if i > loopIdx {
-						r.Ok(rule, f.Name(), "else block after the else-if loop", w.Pos(c.Pos()), "evaluated only when no condition was truthy")
-					} else {
-						r.Bad(rule, f.Name(), "else block evaluated before the else-if loop ends", w.Pos(c.Pos()), "the else block must be evaluated only after every else-if condition was falsy")
-					}
-				}
-			}
-		}
-	}
-}
-
-// conditionToleranceRule: unknown identifiers are falsy -- every evaluation of
-// a `.Condition` in the if / else-if evaluators either goes through an operand
-// wrapper that swallows the typed unknown-identifier error, or is followed by
-// that tolerance on its own error variable.
-func conditionToleranceRule(r *Run, rule string, fns []*FuncInfo) {
-	w := r.W
-	wrappers := w.operandWrappers()
-	seen := map[*FuncInfo]bool{}
-	n := 0
-	for _, f := range fns {
-		if f == nil || seen[f] {
-			continue
-		}
-		seen[f] = true
-		info := f.Pkg.TypesInfo
-		inspectBody(f.Decl.Body, true, func(nd ast.Node) bool {
-			blk, ok := nd.(*ast.BlockStmt)
-			if !ok {
-				return true
-			}
-			for i, st := range blk.List {
-				as, ok := st.(*ast.AssignStmt)
-				if !ok || len(as.Rhs) != 1 || len(as.Lhs) != 2 {
-					continue
-				}
-				c, ok := as.Rhs[0].(*ast.CallExpr)
-				if !ok || !w.isValueEvalCall(info, c) {
-					continue
-				}
-				if _, fld := fieldOf(info, c.Args[0]); fld == nil || fld.Name() != "Condition" {
-					continue
-				}
-				n++
-				con := "condition " + short(w.Fset, c.Args[0]) + " tolerates an unknown identifier"
-				if wrappers[calleeOf(info, c)] {
-					r.Ok(rule, f.Name(), con, w.Pos(c.Pos()), "evaluated through an operand wrapper that swallows *ErrUnknownIdentifier")
-					continue
-				}
-				errVar := objOf(info, as.Lhs[1])
-				tol := false
-				for _, nx := range blk.List[i+1:] {
-					ifs, ok := nx.(*ast.IfStmt)
-					if !ok {
-						break
-					}
-					if unknownToleranceIf(info, ifs) == errVar && errVar != nil {
-						tol = true
-					}
-					break
-				}
-				if tol {
-					r.Ok(rule, f.Name(), con, w.Pos(c.Pos()), "the error branch returns only when the error is not *ErrUnknownIdentifier")
-				} else {
-					r.Bad(rule, f.Name(), con, w.Pos(c.Pos()),
-						"an unknown identifier used as a condition must count as falsy: the error of this evaluation must be let through only when it is not *ErrUnknownIdentifier")
-				}
-			}
-			return true
-		})
-	}
-	if n < 2 {
-		r.Lost(rule, "condition evaluations of the if and else-if evaluators")
-	}
-}
-
-// paramField: path is "<param>.<Field>" for the function's node parameter.
-func paramField(f *FuncInfo, path string) (string, bool) {
-	sig := f.Obj.Type().(*types.Signature)
-	for i := 0; i < sig.Params().Len(); i++ {
-		p := sig.Params().At(i).Name() + "."
-		if len(path) > len(p) && path[:len(p)] == p {
-			rest := path[len(p):]
-			for _, ch := range rest {
-				if ch == '.' {
-					return "", false
-				}
-			}
-			return rest, true
-		}
-	}
-	return "", false
-}
